@@ -85,16 +85,41 @@ def r1_timeout_dominance(ctx: Context) -> None:
         if not is_start:
             continue
         n_paths += 1
+        # an event built on the spot whose time is an expression of its own (not the checked start-time
+        # variable) has to be compared with the timeout as that expression on the same path
+        ev_here = rv if isinstance(rv, ast.Call) else next((e for e in evs if _reaches_return(fn, e, rv)), None)
+        t_here = next((k.value for k in ev_here.keywords if k.arg == "time"), None) if ev_here is not None else None
+        if t_here is None and ev_here is not None and len(ev_here.args) >= 2:
+            t_here = ev_here.args[1]
+        if t_here is not None and not isinstance(t_here, ast.Name):
+            want = lin.formula(ast.parse(f"({ast.unparse(t_here)}) >= {timeout_param}", mode="eval").body)
+            seen = False
+            for (n, lab) in path:
+                if lab is not None and lab[0] in ("T", "F") and isinstance(lab[1], ast.AST):
+                    f = lin.formula(lab[1])
+                    f = f if lab[0] == "T" else lin.f_not(f)
+                    if lin.equivalent(f, lin.f_not(want)):
+                        seen = True
+            key = f"`{norm(ev_here)[:90]}`"
+            if seen:
+                ok_assign.add(key)
+            else:
+                bad.setdefault(key, ev_here)
+            continue
+        if isinstance(t_here, ast.Name) and t_here.id != tvar:
+            tvar_here = t_here.id
+        else:
+            tvar_here = tvar
         # last assignment to tvar on this path, and the aliases it was copied from
         last_idx = None
         last_node = None
         for i, (n, _l) in enumerate(path):
             a = n.ast
-            if n.kind == "stmt" and isinstance(a, ast.Assign) and any(isinstance(t, ast.Name) and t.id == tvar for t in a.targets):
+            if n.kind == "stmt" and isinstance(a, ast.Assign) and any(isinstance(t, ast.Name) and t.id == tvar_here for t in a.targets):
                 last_idx, last_node = i, a
         if last_node is None:
             continue
-        names = {tvar}
+        names = {tvar_here}
         if isinstance(last_node.value, ast.Name):
             names.add(last_node.value.id)  # tvar = adjusted: a test on `adjusted` before the copy also counts
             start_from = 0
